@@ -706,6 +706,30 @@ func (e *Engine) ghostCall(env *Env, x ECall) (Val, bool) {
 			}
 			return VBool{and(parts...)}, true
 		}
+	case "rangestart": // rangestart(K, k): key k was in the map when the K-th range-over-map of the function started
+		if n, ok := x.Args[0].(ENum); ok {
+			var start string
+			for r, t := range c.rngStart {
+				if rr, isR := r.(*ssa.Range); isR && c.rngFam(rr) == "G$rng."+n.V {
+					start = t
+				}
+			}
+			if start == "" {
+				sfail("rangestart: range %s over a map has not started here", n.V)
+			}
+			var kid string
+			switch kv := env.eval(x.Args[1]).(type) {
+			case VStr:
+				kid = c.keyID(kv)
+			case VInt:
+				kid = kv.T
+			case VPtr:
+				kid = c.keyID(kv)
+			default:
+				sfail("rangestart: key of unsupported shape")
+			}
+			return VBool{sel(start, kid)}, true
+		}
 	case "rangeseen": // rangeseen(K, k): the K-th range-over-map of the function (source order) has produced key k
 		if n, ok := x.Args[0].(ENum); ok {
 			fam := fmt.Sprintf("G$rng.%s", n.V)
